@@ -172,3 +172,56 @@ def c10(tier, seed):
                        "type numbers 5..255 must give NULL; every block compared in lock-step with an EVP context and decrypted back "
                        "by the matching decryptor object; distinct = (mode, family, length, carry) classes", 50000,
                        variants=[(4, 4)], san="asan", stall_s=120.0)
+
+
+@prop("C13")
+def c13(tier, seed):
+    return _simple_api("C13", tier, seed, "crash_states",
+                       "cases = cmode x hmode x T in {1,2,4} x n in {0,1,16,c,2c+3} (quick: every 3rd, rotating with the seed) x stdio "
+                       "buffering {unbuffered, 16, 4096}; for each case the complete (offset,len,payload) write sequence is captured "
+                       "below stdio and EVERY byte-prefix of it is rebuilt as a file and given to execute_verify and execute_decrypt; "
+                       "oracle: accepted => state == complete file; exhaustive over crash points within each case; distinct = cases",
+                       2000, level="fault_enumeration", exhaustive=True)
+
+
+@prop("C16")
+def c16(tier, seed):
+    chk = Check("C16", tier, seed)
+    chk.assumptions = ASSUME_API
+    c, d, s = apiprops.run_api(chk, "C16", [(4, 4)], stall_s=60.0)
+    ev = sum(c.get(k, 0) for k in ("enc_groups", "enc_tails", "random_strings", "dec_groups", "dec_tails",
+                                   "validator_candidates", "printed_keys", "k_path_runs"))
+    ex = tier == "thorough"
+    extra = dict(counters=c, exhaustive_parts=("all 2^24 3-byte groups, all 64^4 symbol groups, all 1/2-byte tails, all padded tails"
+                                               if ex else "all 1/2-byte tails and padded tails; groups sampled 1/16 and 1/8"))
+    return chk.finish(ev, d.get("class", 0),
+                      "encoder: 3-byte groups (thorough: all 2^24), all 1- and 2-byte tails, random strings of every length 0..100 "
+                      "with canary-checked extent and NUL; decoder: 4-symbol groups (thorough: all 64^4), all padded tails, inverse of "
+                      "the encoder; validator: every single-byte substitution (24x256), insertions/deletions, every placement of 0-4 "
+                      "'=' in the last 6 positions, random placements, lengths 0..40, every 22nd symbol, vs MUST-ACCEPT (canonical "
+                      "16-byte encodings) / MUST-REJECT / DON'T-CARE (non-canonical pad bits) classes, accepted strings decoded into a "
+                      "canary buffer; printed keys round-trip; the real -k parser path under ASan; distinct = distinct candidates/groups",
+                      s, extra, min_evaluations=100000)
+
+
+@prop("C18")
+def c18(tier, seed):
+    variants = [(4, 4)] if tier == "quick" else [(1, 4), (4, 4)]
+    return _simple_api("C18", tier, seed, "files",
+                       "T = 2..16 x non-ECB modes x {random, all-chunks-equal} plaintexts of 2T+1 chunks x seeds; for every stream the IV "
+                       "it really started from is recovered from (key, P, C) with the reference block cipher; monitors: pairwise "
+                       "distinct stream IVs, distinct header slots, all slots and the used IV change when one seed bit changes, no "
+                       "keystream block used twice (CTR/OFB), equal plaintext chunks never give equal ciphertext chunks; every "
+                       "violating observation carries a cause signature; distinct = (T, mode, plaintext kind, seed index)",
+                       500, variants=variants)
+
+
+@prop("C15")
+def c15(tier, seed):
+    return _simple_api("C15", tier, seed, "operations",
+                       "random sequences (length 2..40) over 16 operation kinds - API encrypt (echo on/off), decrypt/verify of genuine, "
+                       "boundary-length, wrong-key, tampered, truncated, garbage, empty and wrong-mode files, and the getopt path "
+                       "(encrypt/decrypt/verify/parse failures) - with T, modes and sizes varying between consecutive operations; each "
+                       "operation's (result, output hash) in the one-process run is compared with the same operation executed alone in a "
+                       "fresh process image; after every operation the live-buffer counter must be 0 and every buffer-group set-up "
+                       "event must show turn==0/over==false; distinct = (kind, previous kind, position) classes", 3000, stall_s=120.0)
